@@ -104,6 +104,11 @@ type Exec struct {
 	addrs     []*btcAddr
 	LenientCalls map[string]int
 	regions   map[string]*Term
+	task      int // >0 while executing an errgroup task (race tracking)
+	accesses  []memAccess
+	raceInfo  string
+	lastNow   *Term
+	DepGlobals map[string]bool // dependency package variables read with a defaulted (zero/opaque) value
 }
 
 func newExec(L *Loaded, init *InitState, cfg *RunConfig, solver *Solver) *Exec {
@@ -217,6 +222,59 @@ func (e *Exec) assume(c *Term) {
 func (e *Exec) freshVar(prefix string, s Sort) *Term {
 	e.fresh++
 	return Var(fmt.Sprintf("%s!%d", prefix, e.fresh), s)
+}
+
+type memAccess struct {
+	task  int
+	cell  *Cell
+	arr   *ArrObj
+	idx   int
+	path  []int
+	write bool
+	pos   token.Pos
+}
+
+func (e *Exec) recordAccess(p PtrV, write bool, pos token.Pos) {
+	if e.task == 0 || p.Opq != nil || p.IsNil() {
+		return
+	}
+	e.accesses = append(e.accesses, memAccess{task: e.task, cell: p.C, arr: p.Arr, idx: p.Idx, path: p.Path, write: write, pos: pos})
+}
+
+func pathOverlap(a, b []int) bool {
+	n := len(a)
+	if len(b) < n {
+		n = len(b)
+	}
+	for i := 0; i < n; i++ {
+		if a[i] != b[i] {
+			return false
+		}
+	}
+	return true
+}
+
+// findRace: two accesses to overlapping memory from different tasks, at least one a write
+func (e *Exec) findRace() string {
+	for i, a := range e.accesses {
+		for _, b := range e.accesses[i+1:] {
+			if a.task == b.task || !(a.write || b.write) {
+				continue
+			}
+			if a.cell != b.cell || a.arr != b.arr || a.idx != b.idx || !pathOverlap(a.path, b.path) {
+				continue
+			}
+			if a.cell != nil && a.cell.local {
+				continue
+			}
+			w, r := a, b
+			if !a.write {
+				w, r = b, a
+			}
+			return fmt.Sprintf("write at %s (task %d) vs access at %s (task %d)", e.L.Prog.Fset.Position(w.pos), w.task, e.L.Prog.Fset.Position(r.pos), r.task)
+		}
+	}
+	return ""
 }
 
 // ---------- globals ----------
@@ -538,9 +596,12 @@ func (e *Exec) step(fr *Frame, in ssa.Instruction) {
 	switch x := in.(type) {
 	case *ssa.DebugRef:
 	case *ssa.Alloc:
-		fr.Env[x] = PtrV{C: e.newCell(e.zero(x.Type().(*types.Pointer).Elem()))}
+		c := e.newCell(e.zero(x.Type().(*types.Pointer).Elem()))
+		c.local = e.task != 0 // allocated inside a task: not shared with the sibling task
+		fr.Env[x] = PtrV{C: c}
 	case *ssa.Store:
 		p := e.get(fr, x.Addr).(PtrV)
+		e.recordAccess(p, true, x.Pos())
 		e.store(p, e.get(fr, x.Val))
 	case *ssa.UnOp:
 		fr.Env[x] = e.unop(fr, x)
@@ -725,6 +786,7 @@ func (e *Exec) unop(fr *Frame, x *ssa.UnOp) Value {
 		if p.IsNil() {
 			panic(&GoPanic{Msg: "nil pointer dereference at " + e.L.Prog.Fset.Position(x.Pos()).String()})
 		}
+		e.recordAccess(p, false, x.Pos())
 		return loadPtr(p)
 	case token.NOT:
 		return Not(v.(*Term))
@@ -795,6 +857,33 @@ func (e *Exec) binop(op token.Token, a, b Value, ta, tb types.Type) Value {
 	case nil:
 		// nil of some type compared with value
 		return e.binop(op, e.zero(ta), b, ta, tb)
+	case SliceV:
+		if y, ok := b.(SliceV); ok && (x.A == nil || y.A == nil) {
+			eq := (x.A == nil) == (y.A == nil)
+			if op == token.EQL {
+				return BoolC(eq)
+			}
+			return BoolC(!eq)
+		}
+	case MapV:
+		if y, ok := b.(MapV); ok && (x.M == nil || y.M == nil) {
+			eq := (x.M == nil) == (y.M == nil)
+			if op == token.EQL {
+				return BoolC(eq)
+			}
+			return BoolC(!eq)
+		}
+	case FuncV:
+		if y, ok := b.(FuncV); ok {
+			xn := x.Fn == nil && x.Go == nil && x.Intr == ""
+			yn := y.Fn == nil && y.Go == nil && y.Intr == ""
+			if xn || yn {
+				if op == token.EQL {
+					return BoolC(xn == yn)
+				}
+				return BoolC(xn != yn)
+			}
+		}
 	}
 	// generic comparable
 	if op == token.EQL || op == token.NEQ {
